@@ -25,7 +25,7 @@ META = {
                   "random placements and comparing HEAD order, tasks, sends, reported successes and deletions.",
     "level_note": "Trusted: Coq kernel + vm_compute; hand-written model Place/Policer.v (tied by the differential check only, bounded "
                   "sampling: all single-rule placements with <=2 (quick) / <=3 (thorough) remote nodes x answers x flags x replication "
-                  "outcomes, plus random 1-2 REP rules / 0-2 EC rules with <=5-6 nodes); Go harness fakes (network, header reads, "
+                  "outcomes (stored / maintenance status / other failure status / transport failure / unreachable), plus random 1-2 REP rules / 0-2 EC rules with <=5-6 nodes); Go harness fakes (network, header reads, "
                   "transport, local storage recording Delete calls); Python driver. partial: context cancellation, logging/metrics, "
                   "EC attribute decoding failures and checkECParts (recreation of lost EC parts, never deletes) are not modelled; "
                   "answers are fixed per node within one check; node hash collisions are excluded.",
@@ -33,7 +33,8 @@ META = {
                      "harness/cmd/place, harness/hooks/pkg/services/{policer,replicator}/zz_verif_place_*.go, lib/vlib.py"],
     "assumptions": ["GetNodesForObject contract: len(nodeLists) = len(repRules)+len(ecRules), no node repeated inside one list",
                     "distinct nodes have distinct netmap.NodeInfo.Hash()",
-                    "context is not cancelled during the check; HEAD answer of a node does not change within one processObject call"],
+                    "context is not cancelled during the check; HEAD answer of a node does not change within one processObject call "
+                    "(the answer to the replication request is independent of the HEAD answer)"],
 }
 
 
@@ -51,7 +52,8 @@ def coq_case(c):
     ec = "None" if c["ec"] is None else "(Some (%d, %d))" % (c["ec"][0], c["ec"][1])
     return "(mkCase %d %s %s %s %s %s %d %s %d %s %s %s %s %s %s %s %s)" % (
         c["local"], vlib.coq_bool(c["innm"]), vlib.coq_list(c["mflag"]),
-        vlib.coq_list(c["ans"], lambda a: "(%d, %d)" % (a[0], a[1])), vlib.coq_list(c["rep"]),
+        vlib.coq_list(c["ans"], lambda a: "(%d, %d)" % (a[0], a[1])),
+        vlib.coq_list(c["rep"], lambda a: "(%d, %d)" % (a[0], a[1])),
         vlib.coq_bool(c["readable"]), c["ty"], ec, c["shards"], nets,
         vlib.coq_list(o["heads"]), vlib.coq_list(o["tasks"], lambda t: "(%d, %s)" % (t["q"], vlib.coq_list(t["nodes"]))),
         vlib.coq_list(o["sends"]), vlib.coq_list(o["succ"]), vlib.coq_list(o["dels"]),
@@ -168,8 +170,10 @@ def run(ctx):
         "distinct_nontrivial": len({json.dumps(strip(c), sort_keys=True) for c in cases
                                     if c["net"]["k"] == 2 and (c["obs"]["heads"] or c["obs"]["dels"])}),
         "rule": "enumerated: every single-rule REP placement with <=2 (quick) / <=3 (thorough) remote nodes, local node at any position or "
-                "absent, x answer vector (has/not-found/maintenance/error) x netmap maintenance flags x replication outcomes x REP 1-2 x "
-                "REGULAR/LOCK; random: 0-2 REP rules (1-5 nodes, overlapping lists) + 0-2 EC rules, all four object types, EC parts with "
+                "absent, x per-node behaviour vector (flagged in the netmap | HEAD has / maintenance / error | HEAD not-found x every "
+                "replication outcome: stored, maintenance status, other failure status, transport failure, unreachable) x REP 1-2 x "
+                "REGULAR/LOCK; every EC part of a 2+1 rule over two remote nodes and the local node at any position x the same "
+                "per-node behaviours; random: per node an independent replication outcome of the same five; 0-2 REP rules (1-5 nodes, overlapping lists) + 0-2 EC rules, all four object types, EC parts with "
                 "valid/invalid indexes, missing container, unreadable local object, 0-3 shard copies. non-trivial = placement available and "
                 "at least one HEAD or deletion happened; distinct by full input",
         "samples": [cases[0], cases[len(cases) // 2], cases[-1]] if cases else [],
@@ -181,10 +185,25 @@ def run(ctx):
         "hist_deletions": hist(cases, lambda c: "/".join(["default", "redundant"][d] for d in c["obs"]["dels"]) or "none"),
         "hist_local_listed": hist(cases, lambda c: "listed" if any(c["local"] in l for l in c["net"]["nn"]) else "outside"),
         "hist_answers": hist([a for c in cases for a in c["ans"]], lambda a: ["has", "notfound", "maintenance", "error"][a[1]]),
+        # what the nodes that were actually sent / about to be sent a replica did with the request
+        "hist_replication_outcome_of_task_candidates": hist(
+            [rep_outcome(c, n) for c in cases for t in c["obs"]["tasks"] for n in t["nodes"] if n != c["local"]],
+            lambda o: ["stored", "maintenance-status", "other-failure-status", "transport-failure", "unreachable"][o]),
+        "cases_candidate_answers_replication_with_maintenance": sum(
+            1 for c in cases if any(rep_outcome(c, n) == 1 for n in c["obs"]["sends"])),
+        "cases_ec_part_candidate_replication_refused": sum(
+            1 for c in cases if c["ec"] is not None and c["obs"]["sends"] and not c["obs"]["succ"]),
         "redundant_drops_checked": len(dropped),
         "tasks_observed": sum(len(c["obs"]["tasks"]) for c in cases),
         "distinct_observable_classes": len({classify(c) for c in cases}),
     })
+
+
+def rep_outcome(c, n):
+    for a in c["rep"]:
+        if a[0] == n:
+            return a[1]
+    return 3
 
 
 def hist(items, f):
